@@ -640,6 +640,11 @@ func parseIPNet(cidr string) ([]byte, *ipNet, error) {
 			for k := 0; k < prefix; k++ {
 				mask[k/8] |= 1 << (7 - k%8)
 			}
+			// The pool starts at the network address even if the CIDR text
+			// carries host bits (as net.ParseCIDR does)
+			for k := range ip {
+				ip[k] &= mask[k]
+			}
 			return ip, &ipNet{IP: ip, Mask: mask}, nil
 		}
 	}
